@@ -8,22 +8,25 @@ class P(StreamProperty):
     module = 'OpenFecVerif.Props.C15'
     theorems = ['C15_flag_def', 'C15_same_for_both_roles', 'C15_sum_of_equations', 'C15_truthful', 'C15_lastNullCheck_every_configuration',
                 'C15_truthful_every_configuration']
-    rule = ('encoder and decoder sessions with equal parameters over the LDPC grid restricted to even N1 (plus odd N1 as the negative class), identity and random payloads: '
+    rule = ('encoder and decoder sessions with equal parameters over the LDPC grid restricted to even N1 (plus odd N1 as the negative class, plus configurations with N1 > n-k, which must be refused but are held to the same oracle if a session comes up), identity and random payloads: '
             'the flag reported by both roles, and the last repair symbol of the real encoder; oracle: flag true => last repair symbol all zeros, flags of both roles equal; '
             'non-trivial = distinct (k,r,N1,seed,payload) with the flag true')
 
     def project(self, line, out):
         op = line.split()[0]
         if op in ('ctrl', 'cwdump', 'build'):
-            return out
+            return 'bad-op' if out.startswith('bad-op') else out     # (the harness adds its reason after `bad-op`)
         return 'x'
 
     def is_nontrivial(self, c):
         return c.meta.get('flag') == 1
 
     def oracle(self, c):
-        flags = [(i, kv(o)) for i, (l, o) in enumerate(zip(c.lines, c.impl)) if l.startswith('ctrl') and l.endswith('lastnull')]
+        # the property speaks of configured sessions: a session whose parameters were refused has no flag to be held to
+        okp = {l.split()[1] for l, o in zip(c.lines, c.impl) if l.startswith('params') and kv(o).get('st') == 'OK'}
+        flags = [(i, kv(o)) for i, (l, o) in enumerate(zip(c.lines, c.impl)) if l.startswith('ctrl') and l.endswith('lastnull') and l.split()[1] in okp]
         cw = case_codeword(c)
+        c.meta['configured'] = bool(flags)
         if len(flags) >= 2 and flags[0][1].get('v') != flags[1][1].get('v'):
             return [('c15:roles-differ', 'encoder reports last-symbol-null=%s, decoder %s' % (flags[0][1].get('v'), flags[1][1].get('v')), flags[1][0])]
         if flags:
@@ -37,9 +40,11 @@ class P(StreamProperty):
         cases = []; i = 0
         ks = [1, 2, 3, 4, 5, 6, 7, 8, 9, 12, 17, 31, 64] + ([200] if tier == 'quick' else [200, 1000, 5000])
         for k in ks:
-            for r in [4, 5, 6, 8, 12, 20, 50] + ([k] if k > 50 else []):
+            for r in [1, 3, 4, 5, 6, 7, 8, 12, 20, 50] + ([k] if k > 50 else []):
                 for N1 in (4, 6, 8, 3, 5):
-                    if N1 > r: continue
+                    # N1 > n-k is outside the limits and must be refused (C09); should a session be configured all the same, what it
+                    # reports still has to be true, so these configurations are sent too (a third of them when refused as expected)
+                    if N1 > r and (k > 12 or (k + r + N1) % 3): continue
                     for rep in range(2 if tier == 'quick' else 6):
                         sd = rng.randint(1, 2 ** 31 - 2)
                         cfg = gens.Cfg('ldpc', k, r, N1=N1, seed=sd, payload='id' if rep % 2 == 0 else 'rand', pseed=i)
@@ -57,7 +62,7 @@ class P(StreamProperty):
         for c in cases:
             cfg = c.meta['cfg']
             key = (cfg.k, cfg.n, cfg.N1, cfg.seed)
-            if c.meta.get('flag') == 1 and key not in seen:
+            if c.meta.get('flag') == 1 and c.meta.get('configured') and cfg.N1 <= cfg.r and key not in seen:
                 seen.add(key)
                 H, _ = pyref.rfc5170(cfg.k, cfg.n, cfg.N1, cfg.seed)
                 lines.append('colcheck %d %d %s' % (cfg.k, cfg.n, ''.join(','.join(str(e) for e in sorted(r)) + ';' for r in H)))
